@@ -896,6 +896,26 @@ def reader_thread(env, k):
             if g2 == "known":
                 sr = _drop(s2)
                 continue
+            if env.layout == "compound":
+                # "sees exactly that commit's state" also for the scored search API: the refreshed searcher must score as
+                # a searcher newly made over the very same reader does (no statistic carried over from the old generation)
+                from whoosh import query as _q
+                from whoosh.searching import Searcher as _Searcher
+                qq = _q.Or([_q.Term("t", "alfa"), _q.Term("t", "bravo")])
+                try:
+                    got_a = [(h["id"], round(h.score, 6)) for h in s2.search(qq, limit=None)]
+                    got_b = [(h["id"], round(h.score, 6)) for h in _Searcher(s2.reader()).search(qq, limit=None)]
+                except Exception:  # noqa - errors of reads are judged by the fingerprint monitors
+                    ctx.count("refresh.scored_compare_errors")
+                else:
+                    ctx.count("refresh.scored_vs_new_searcher")
+                    if got_a != got_b:
+                        w_ = dict(env.wb)
+                        w_.update(info2)
+                        w_.update(refreshed=got_a[:8], new_searcher_on_same_reader=got_b[:8], generation=g2)
+                        ctx.fail("commit-state", "refresh:scored-search-differs-from-a-new-searcher-on-the-same-reader", w_)
+                        env.stop = True
+                        break
             r2 = s2.reader()
             new_segs = set(seg.segment_id() for seg in (r2.segments() or []))
             if old_segs - new_segs and g2 != g:
